@@ -727,3 +727,207 @@ func TestC08Reuse(t *testing.T) {
 func TestC08BigSet(t *testing.T) {
 	rapid.Check(t, func(t *rapid.T) { runBigSet(t, "C08") })
 }
+
+// The same reuse window inside CREATE / MKDIR / SYMLINK: the request is handed the number of an inode whose blocks
+// are still being freed (a removed 600-block file, server stopped with the shrinker interrupted), gives up its
+// transaction - and with it the lock of its directory -, finishes the free in transactions of its own and tries
+// again.  While it is held at one of the lock/commit/abort points of that detour another client removes the (still
+// empty) directory and makes a new one, which receives the directory's inode number (the table is otherwise full).
+// The held request carries the handle of a directory that no longer exists: it must not put its object into the new
+// one.  Enumerated: request kind x point at which it is held.
+func TestC08ReuseCreate(t *testing.T) {
+	inodeFullOnce.Do(buildInodeFullImage)
+	shard, nshards := EnvInt("VERIF_SHARD", 0), EnvInt("VERIF_NSHARDS", 1)
+	St.Exhaustive(true)
+	type rcase struct {
+		Kind string
+		Hook int
+	}
+	var cases []rcase
+	for _, k := range []string{"create", "mkdir", "symlink"} {
+		for h := 0; h < 16; h++ {
+			cases = append(cases, rcase{k, h})
+		}
+	}
+	nrun, nreused, npaused, nhalf := 0, 0, 0, 0
+	for i, rc := range cases {
+		if i%nshards != shard {
+			continue
+		}
+		d := NewDiskFrom(inodeFullDisk, inodeFullImg)
+		d.SetRecord(false)
+		s := StartSrv(d, i%2 == 0, false)
+		api := s.API()
+		root := s.RootFH()
+		var hist []string
+		logf := func(format string, a ...any) { hist = append(hist, fmt.Sprintf(format, a...)) }
+		fail := func(format string, a ...any) {
+			msg := fmt.Sprintf(format, a...)
+			detail := map[string]any{"case": fmt.Sprintf("%+v", rc), "history": hist}
+			St.Violation("C08", msg, detail)
+			t.Fatalf("C08: %s\n%s", msg, strings.Join(hist, "\n"))
+		}
+		notJudged := func() {
+			s.Stop()
+			St.Class("setup_not_possible_with_this_build_case_not_judged")
+		}
+		lookup := func(dir nt.Nfs_fh3, name string) (nt.Nfs_fh3, uint64, nt.Nfsstat3) {
+			r := api.NFSPROC3_LOOKUP(nt.LOOKUP3args{What: nt.Diropargs3{Dir: dir, Name: nt.Filename3(name)}})
+			return r.Resok.Object, uint64(r.Resok.Obj_attributes.Attributes.Fileid), r.Status
+		}
+		remove := func(dir nt.Nfs_fh3, name string) nt.Nfsstat3 {
+			return api.NFSPROC3_REMOVE(nt.REMOVE3args{Object: nt.Diropargs3{Dir: dir, Name: nt.Filename3(name)}}).Status
+		}
+		// two free inode numbers: the lower one for the big file, the higher one for the directory
+		p0, _, st0 := lookup(root, inodeFullDirs[0])
+		p1, _, st1 := lookup(root, inodeFullDirs[1])
+		if st0 != nt.NFS3_OK || st1 != nt.NFS3_OK || remove(p0, "p5") != nt.NFS3_OK || remove(p1, "p5") != nt.NFS3_OK {
+			notJudged()
+			continue
+		}
+		c1 := api.NFSPROC3_CREATE(nt.CREATE3args{Where: nt.Diropargs3{Dir: root, Name: "g1"}})
+		c2 := api.NFSPROC3_CREATE(nt.CREATE3args{Where: nt.Diropargs3{Dir: root, Name: "g2"}})
+		if c1.Status != nt.NFS3_OK || c2.Status != nt.NFS3_OK {
+			notJudged()
+			continue
+		}
+		big, hi := "g1", "g2"
+		bigid, hiid := uint64(c1.Resok.Obj_attributes.Attributes.Fileid), uint64(c2.Resok.Obj_attributes.Attributes.Fileid)
+		bigfh := c1.Resok.Obj.Handle
+		if bigid > hiid {
+			big, hi, bigid, hiid, bigfh = hi, big, hiid, bigid, c2.Resok.Obj.Handle
+		}
+		remove(root, hi)
+		md := api.NFSPROC3_MKDIR(nt.MKDIR3args{Where: nt.Diropargs3{Dir: root, Name: "d"}})
+		if md.Status != nt.NFS3_OK || uint64(md.Resok.Obj_attributes.Attributes.Fileid) != hiid {
+			notJudged()
+			continue
+		}
+		dh := md.Resok.Obj.Handle
+		wok := true
+		for j := uint64(0); j < 2; j++ {
+			w := api.NFSPROC3_WRITE(nt.WRITE3args{File: bigfh, Offset: nt.Offset3(j * 300 * BlockSize), Count: 300 * BlockSize, Stable: nt.FILE_SYNC, Data: patternData(uint32(70+j), 300*BlockSize)})
+			wok = wok && w.Status == nt.NFS3_OK
+		}
+		if !wok || remove(root, big) != nt.NFS3_OK {
+			notJudged()
+			continue
+		}
+		s.StopCrash()
+		s.start()
+		api = s.API()
+		half := false
+		for _, n := range Fsck(s.N.VerifFsState(), FsckOpts{}).HalfFreedFree {
+			half = half || n == bigid
+		}
+		if half {
+			nhalf++
+		}
+		logf("inode table full; the empty directory /d has inode %d; the only free inode number, %d, belongs to a removed 600-block file (free interrupted by a server stop: %v)", hiid, bigid, half)
+		mon := s.Mon()
+		reached, othersDone := make(chan struct{}), make(chan struct{})
+		var reachedOnce sync.Once
+		var gid0 uint64
+		var nhook int32
+		paused := false
+		pausedAt := ""
+		mon.SetYield(func(point string) {
+			if goid() != atomic.LoadUint64(&gid0) {
+				return
+			}
+			if int(atomic.AddInt32(&nhook, 1))-1 != rc.Hook {
+				return
+			}
+			paused, pausedAt = true, point
+			reachedOnce.Do(func() { close(reached) })
+			select {
+			case <-othersDone:
+			case <-time.After(150 * time.Millisecond):
+			}
+		})
+		var st0c nt.Nfsstat3
+		var newid uint64
+		done0 := make(chan struct{})
+		var r2, r3 nt.Nfsstat3
+		var eid uint64
+		var eh nt.Nfs_fh3
+		o := Guard(30*time.Second, func() {
+			go func() {
+				defer close(done0)
+				defer reachedOnce.Do(func() { close(reached) })
+				atomic.StoreUint64(&gid0, goid())
+				where := nt.Diropargs3{Dir: dh, Name: "n"}
+				switch rc.Kind {
+				case "create":
+					r := api.NFSPROC3_CREATE(nt.CREATE3args{Where: where})
+					st0c, newid = r.Status, uint64(r.Resok.Obj_attributes.Attributes.Fileid)
+				case "mkdir":
+					r := api.NFSPROC3_MKDIR(nt.MKDIR3args{Where: where})
+					st0c, newid = r.Status, uint64(r.Resok.Obj_attributes.Attributes.Fileid)
+				case "symlink":
+					r := api.NFSPROC3_SYMLINK(nt.SYMLINK3args{Where: where, Symlink: nt.Symlinkdata3{Symlink_data: "target"}})
+					st0c, newid = r.Status, uint64(r.Resok.Obj_attributes.Attributes.Fileid)
+				}
+			}()
+			<-reached
+			r2 = api.NFSPROC3_RMDIR(nt.RMDIR3args{Object: nt.Diropargs3{Dir: root, Name: "d"}}).Status
+			me := api.NFSPROC3_MKDIR(nt.MKDIR3args{Where: nt.Diropargs3{Dir: root, Name: "e"}})
+			r3, eh, eid = me.Status, me.Resok.Obj.Handle, uint64(me.Resok.Obj_attributes.Attributes.Fileid)
+			close(othersDone)
+			<-done0
+		})
+		mon.SetYield(nil)
+		logf("client 0: %s of n through the handle of /d (held at its lock/commit point #%d: %v %s) -> %d (inode %d)", strings.ToUpper(rc.Kind), rc.Hook, paused, pausedAt, st0c, newid)
+		logf("client 1 meanwhile: RMDIR /d: %d; MKDIR /e: %d (inode %d)", r2, r3, eid)
+		if o.Slow {
+			s.Stop()
+			continue
+		}
+		if o.Hung || o.Panic != "" {
+			fail("the requests did not return: %s %s", o.Why, o.Panic)
+		}
+		nrun++
+		if paused {
+			npaused++
+			St.Class(fmt.Sprintf("create_cases_held_at_%s_rmdir_%v_request_%v", pausedAt, r2 == nt.NFS3_OK, st0c == nt.NFS3_OK))
+		}
+		reused := r2 == nt.NFS3_OK && r3 == nt.NFS3_OK && eid == hiid
+		if reused {
+			nreused++
+			if paused {
+				St.NT(Hash("c08reusecreate", i))
+			}
+		}
+		// /d can only have been removed while it was empty: "n was made in /d" and "/d was removed" cannot both have happened
+		if r2 == nt.NFS3_OK && st0c == nt.NFS3_OK {
+			fail("%s of n through the handle of /d succeeded and RMDIR /d succeeded: n went into the new directory /e that got /d's inode number (or was lost with /d)", strings.ToUpper(rc.Kind))
+		}
+		if r2 != nt.NFS3_OK && st0c != nt.NFS3_OK && paused {
+			// neither happened although nothing else was going on: RMDIR may only fail when n is there
+			if _, _, st := lookup(dh, "n"); st != nt.NFS3_OK {
+				fail("RMDIR of the empty directory /d failed with %d and the %s in it failed with %d", r2, strings.ToUpper(rc.Kind), st0c)
+			}
+		}
+		if r3 == nt.NFS3_OK {
+			if _, _, st := lookup(eh, "n"); st == nt.NFS3_OK {
+				fail("the new directory /e has an entry n that nobody made there (the %s went through the handle of the removed /d and answered %d)", strings.ToUpper(rc.Kind), st0c)
+			}
+		}
+		if reused {
+			if _, _, st := lookup(dh, "n"); st != nt.NFS3ERR_STALE {
+				fail("LOOKUP through the handle of the deleted directory /d answers %d, not STALE (inode %d now belongs to /e)", st, hiid)
+			}
+		}
+		if st0c == nt.NFS3_OK {
+			if _, id, st := lookup(dh, "n"); st != nt.NFS3_OK || id != newid {
+				fail("%s /d/n answered OK (inode %d), LOOKUP /d/n afterwards: status %d inode %d", strings.ToUpper(rc.Kind), newid, st, id)
+			}
+		}
+		s.Stop()
+		St.Eval(1)
+	}
+	St.ClassN("create_cases_where_the_new_directory_reused_the_inode_number", nreused)
+	St.ClassN("create_cases_with_the_request_held_inside_its_window", npaused)
+	St.ClassN("create_cases_starting_from_a_half_freed_inode", nhalf)
+	St.Sample(map[string]any{"kind": "CREATE/MKDIR/SYMLINK through a directory handle that goes stale while the request finishes an interrupted free", "cases_in_this_shard": nrun, "reused": nreused, "held": npaused, "half_freed_start": nhalf}, true)
+}
